@@ -107,9 +107,37 @@ def run(ctx):
             gs = gcfg.guards_of(r)
             if all(o is False for c, o, _ in gs):
                 ok = True
+    extra = []
+    tabnodes = [t for t, _ in gtabs]
+    for r in rets:
+        v = r.ast.value
+        if isinstance(v, ast.Call) and norm(v.func) == "getattr" and [norm(a) for a in v.args] == ["%s.target" % ga.selfname, gname]:
+            for c, o, _ in gcfg.guards_of(r):
+                if not any(c is t for t in tabnodes):
+                    extra.append(c)
+    for node in walk_own(ga.node):
+        if isinstance(node, (ast.If, ast.IfExp, ast.While)):
+            stack = [node.test]
+            while stack:
+                t = stack.pop()
+                if isinstance(t, ast.BoolOp):
+                    stack.extend(t.values)
+                elif isinstance(t, ast.UnaryOp) and isinstance(t.op, ast.Not):
+                    stack.append(t.operand)
+                elif not any(t is tn for tn in tabnodes):
+                    extra.append(t)
+    if extra:
+        ok = False
+        ctx.viol("L2", ga, extra[0], "__getattr__ refuses to forward names under the additional condition `%s`: reads of such "
+                 "attributes no longer reach the target" % norm(extra[0]), construct="__getattr__ extra refusal %s" % norm(extra[0]))
+    elif gtabs and set().union(*[t for _, t in gtabs]) - links - {"__setstate__"}:
+        more = sorted(set().union(*[t for _, t in gtabs]) - links - {"__setstate__"})
+        ok = False
+        ctx.viol("L2", ga, gtabs[0][0], "__getattr__ refuses to forward %s: only the link fields and __setstate__ are the link's own" % more,
+                 construct="__getattr__ refuses %s" % more)
     if ok:
         ctx.inst("L2", ga, ga.node, "every other name: getattr(self.target, name), no default")
-    else:
+    elif not extra:
         ctx.viol("L2", ga, ga.node, "__getattr__ does not fall through to getattr(self.target, name) without a default",
                  construct="__getattr__ forwarding")
     # ---- L3 no structural member overridden
